@@ -321,6 +321,25 @@ func AcceptBidToBuy1SatOrdinal2Dummies(ctx context.Context, vba *ValidateBid2DAr
 	}
 	tx.Inputs[2].PreviousTxScript = vba.PreviousUTXOs[2].LockingScript
 	tx.Inputs[2].PreviousTxSatoshis = vba.PreviousUTXOs[2].Satoshis
+
+	// Validate saw the ordinal input without its unlocking script, which has to be paid
+	// for as well, so check the fee with that script estimated. The transaction was read
+	// back from bytes, so the other inputs get their previous outputs from the partially
+	// signed transaction first, as Clone does.
+	for i, in := range aba.PSTx.Inputs {
+		if i != 2 {
+			tx.Inputs[i].PreviousTxScript = in.PreviousTxScript
+			tx.Inputs[i].PreviousTxSatoshis = in.PreviousTxSatoshis
+		}
+	}
+	enough, err := tx.EstimateIsFeePaidEnough(vba.ExpectedFQ)
+	if err != nil {
+		return nil, err
+	}
+	if !enough {
+		return nil, bt.ErrInsufficientFees
+	}
+
 	err = tx.FillInput(ctx, aba.OrdinalUnlocker, bt.UnlockerParams{InputIdx: 2})
 	if err != nil {
 		return nil, err
